@@ -312,6 +312,9 @@ struct Driver {
     last_seen_wakes: usize,
     need_poll: bool,
     ended: bool,
+    /// A slow consumer: the stream is not polled for this many driver steps although it has been woken, so that
+    /// several things (timer fires, requests, completions) are ready at once when it is polled again.
+    hold: usize,
 }
 
 fn sval_from(v: &Value) -> Option<SVal> {
@@ -479,6 +482,10 @@ impl Driver {
                 let snap = snap_j(&lk(&self.w).store.committed);
                 self.emit(json!({"k": "restart", "run": cfgv, "store": snap}));
             }
+            "hold" => {
+                self.hold = st["n"].as_u64().unwrap_or(1) as usize;
+                self.emit(json!({"k": "hold", "n": self.hold}));
+            }
             "dropstream" => {
                 self.stream = None;
                 self.emit(json!({"k": "dropstream"}));
@@ -533,7 +540,11 @@ impl Driver {
             let wakes = self.root.count.load(Ordering::SeqCst);
             let woken = wakes != self.last_seen_wakes;
             let mut polled_pending = false;
-            if self.stream.is_some() && !self.ended && (self.need_poll || woken) {
+            let held = self.hold > 0;
+            if held {
+                self.hold -= 1;
+            }
+            if self.stream.is_some() && !self.ended && (self.need_poll || woken) && !held {
                 self.last_seen_wakes = wakes;
                 self.need_poll = false;
                 let mut cx = Context::from_waker(&self.waker);
@@ -628,6 +639,11 @@ impl Driver {
                     // complete the operation
                     let before = self.root.count.load(Ordering::SeqCst);
                     let already_open = lk(&self.w).gates[gate].open;
+                    if already_open && held {
+                        // completed while the consumer was held back: let it poll now
+                        self.hold = 0;
+                        continue;
+                    }
                     if already_open {
                         // we opened it and the machine has not moved: lost wake-up
                         self.emit(json!({"k": "hang", "what": "lost-wakeup", "op": kind}));
@@ -654,6 +670,11 @@ impl Driver {
                             }
                         }
                         self.poll_ctl();
+                        continue;
+                    }
+                    if held {
+                        // nothing more is scripted here: the slow consumer catches up
+                        self.hold = 0;
                         continue;
                     }
                     if self.in_check {
@@ -720,6 +741,7 @@ pub fn run_scenario(sc: &Value) -> Vec<String> {
         cursors: Default::default(),
         last_seen_wakes: 0,
         need_poll: true,
+        hold: 0,
         ended: false,
     };
     let r = std::panic::catch_unwind(std::panic::AssertUnwindSafe(|| {
